@@ -67,7 +67,15 @@ theorem cut_inside_payload (max : Nat) (fl : UInt8) (n : Nat) (got : Bytes) (tai
   simp only [envRead, Prog.run, h5, envReadBody, hfrom, hn0, if_false]
   by_cases hover : max > 0 ∧ n > max
   · simp only [hover, and_self, if_true, Prog.run, hshort]
-    cases h : tail.isEOF <;> simp [h, Prog.run]
+    cases h : tail.isEOF with
+    | true => simp [Prog.run]
+    | false =>
+      simp only [Bool.false_eq_true, if_false]
+      cases tail with
+      | coded c w => simp [RErr.isEOF] at h; subst h; simp [Prog.run]
+      | eof => simp [RErr.isEOF] at h
+      | unexpectedEOF => simp [Prog.run]
+      | other => simp [Prog.run]
   · simp only [hover, if_false]
     rw [Prog.run_bind]
     have hp : ∃ e, ((payloadLoop 3 n []).run takeExact { flat := got, tail := tail }).1 = .fail e ∧ e.wrapsEOF = false := by
